@@ -87,6 +87,12 @@ func (s *Sink) WaitCount(n int, timeout time.Duration) bool {
 	}
 }
 
+// WaitAll waits for datagrams whose absence would be reported as a violation: up to 30 s, so that a
+// machine busy enough to starve the reader goroutine for seconds delays the verdict instead of
+// falsifying it (a datagram that was never sent is still missing after 30 s; loopback does not lose
+// datagrams while the receive buffer has room, and the checks keep little in flight).
+func (s *Sink) WaitAll(n int) bool { return s.WaitCount(n, 30*time.Second) }
+
 // Settle waits until no new datagram has arrived for quiet (bounded by max)
 // and returns everything received so far.
 func (s *Sink) Settle(quiet, max time.Duration) [][]byte {
